@@ -238,6 +238,8 @@ type rangeIter struct {
 	m     MapV
 	id    int
 	isStr bool
+	start MapC // content when the iteration started
+	key   string
 }
 
 func (e *Engine) rangeInit(fr *Frame, st *State, x *ssa.Range) Value {
@@ -247,6 +249,12 @@ func (e *Engine) rangeInit(fr *Frame, st *State, x *ssa.Range) Value {
 	switch s := v.(type) {
 	case MapV:
 		it.m = s
+		if s.Obj != nil {
+			it.start = e.mapContent(st, s)
+		}
+		it.key = fmt.Sprintf("rangecount#%d", it.id)
+		st.ghost[it.key] = Num(0)
+		st.ghost["rangecount"] = Num(0)
 	case StrV:
 		it.isStr = true
 	}
@@ -299,6 +307,17 @@ func (e *Engine) rangeNext(fr *Frame, st *State, x *ssa.Next) []fork {
 	k := e.keyTerm(st, key)
 	st.assume(Implies(ok, Select(mc.Dom, k)))
 	st.assume(Implies(ok, Lt(Num(0), mc.Card)))
+	// number of entries produced so far; exact bounds when the map was not modified since
+	// the iteration began (Go produces every entry exactly once in that case)
+	cnt, _ := st.ghost["rangecount"].(*Term)
+	if cnt == nil {
+		cnt = Num(0)
+	}
+	if sameValue(mc, it.start) {
+		st.assume(Implies(ok, Lt(cnt, mc.Card)))
+		st.assume(Implies(Not(ok), Eq(cnt, mc.Card)))
+	}
+	st.ghost["rangecount"] = Add(cnt, Ite(ok, Num(1), Num(0)))
 	val, _ := e.mapGet(st, m, key)
 	tv[1] = key
 	tv[2] = val
